@@ -23,8 +23,8 @@ def whole(name, contract, obligation, ghost=(), rewrites=(), loop_fn=None, sigfi
 UNIT = Unit(
     name="U-INFERCTRL",
     properties=["C03"],
-    rules=["attrs", "fmtmsg", ("strip", "tast::"), ("strip", "hir::"), ("strip", "super::util::"), "for_index"],
-    describe="Typer::{infer_if_expr, infer_while_expr, infer_go_expr, infer_tuple_expr, infer_field_expr} (whole): the typing rule of each form is recorded — an `if`'s condition is "
+    rules=["attrs", "fmtmsg", ("strip", "tast::"), ("strip", "hir::"), ("strip", "common_defs::"), ("strip", "super::util::"), "for_index"],
+    describe="Typer::{infer_if_expr, infer_while_expr, infer_go_expr, infer_tuple_expr, infer_field_expr, infer_unary_expr, infer_binary_expr} (whole): the typing rule of each form is recorded — a builtin operator's operands and result are related as the operator demands (arithmetic: one type; logic: bools; comparison: a bool over one operand type);  an `if`'s condition is "
              "equated with bool and BOTH branches with the type the `if` is given; a `while`'s condition with bool, its body with unit, and it has type unit; the operand of `go` "
              "with `() -> unit`; a tuple's type lists its items' types in order; a field access records the field constraint between the operand's type and the type it is given",
     trusted=["Typer::infer_expr is a stub (inferred: SOME elaboration; nothing recorded is lost); the typer's constraint list is ghost state of the opaque Typer; "
@@ -39,6 +39,13 @@ UNIT = Unit(
               "ensures r matches Expr::EWhile { cond: c, body: b, ty } && ty is TUnit && inferred(cond, *c) && inferred(body, *b)\n"
               "  && final(self).recorded().contains(Constraint::TypeEqual(expr_ty(*c), Ty::TBool)) && final(self).recorded().contains(Constraint::TypeEqual(expr_ty(*b), Ty::TUnit)),",
               "while: condition = bool, body = unit, the loop has type unit"),
+        whole("infer_unary_expr",
+              "ensures r matches Expr::EUnary { op: o, expr: x, ty, resolution: _ } && o == op && inferred(expr, *x)\n"
+              "  && (op is Not ==> ty is TBool && final(self).recorded().contains(Constraint::TypeEqual(expr_ty(*x), Ty::TBool))) && (op is Neg ==> ty == expr_ty(*x)),",
+              "`!e`: e is a bool and so is the result; `-e`: the result has e's type"),
+        whole("infer_binary_expr",
+              "ensures r matches Expr::EBinary { op: o, lhs: l, rhs: rr, ty, resolution: _ } && o == op && inferred(lhs, *l) && inferred(rhs, *rr) && binary_rule_ok(op, *l, *rr, ty, final(self).recorded()),",
+              "arithmetic: both operands have the result's type; `&&` / `||`: bools; comparison / equality: a bool, both operands of ONE type"),
         whole("infer_go_expr",
               "ensures r matches Expr::EGo { expr: x, ty } && ty is TUnit && inferred(expr, *x)\n"
               "  && exists|ft: Ty| #[trigger] final(self).recorded().contains(Constraint::TypeEqual(expr_ty(*x), ft)) && (ft matches Ty::TFunc { params, ret_ty } && params@.len() == 0 && *ret_ty is TUnit),",
